@@ -100,7 +100,7 @@ func (m *Middleware) Wrap(handler dnsserver.Handler) (wrapped dnsserver.Handler)
 			return nil
 		}
 
-		err = m.set(resp)
+		err = m.set(req, resp)
 		m.metrics.OnCacheItemAdded(ctx, resp, m.cache.Len(false))
 		if err != nil {
 			return fmt.Errorf("adding cache item: %w", err)
@@ -139,7 +139,7 @@ func (m *Middleware) get(req *dns.Msg) (resp *dns.Msg, found bool) {
 
 // set saves msg to the cache if it's cacheable.  If msg cannot be cached, it is
 // ignored.
-func (m *Middleware) set(msg *dns.Msg) (err error) {
+func (m *Middleware) set(req, msg *dns.Msg) (err error) {
 	if m == nil {
 		return nil
 	}
@@ -155,7 +155,7 @@ func (m *Middleware) set(msg *dns.Msg) (err error) {
 		setMinTTL(msg, uint32(exp.Seconds()))
 	}
 
-	key := toCacheKey(msg)
+	key := toCacheKey(req)
 	i := m.toCacheItem(msg)
 
 	return m.cache.SetWithExpire(key, i, exp)
